@@ -102,6 +102,8 @@ def gp_step(name):
         return TournamentSelection(2, with_replacement=True)
     if name == "mutation05":
         return SequenceStep(TournamentSelection(2, with_replacement=True), GenericMutationStep(0.5))
+    if name == "elitism+bare-mutation":  # a mutation step alone in a slice: it is handed the whole population and a slice-sized target
+        return ParallelStep([ElitismStep(), GenericMutationStep(1.0)], [1, 1])
     if name == "mutation-then-tournament":
         return SequenceStep(GenericMutationStep(1), TournamentSelection(2, with_replacement=True))
     raise ValueError(name)
@@ -134,6 +136,10 @@ def units(tier, seed):
                 for minimize in (False, True):
                     us.append({"algo": "gp", "n": n + 4, "budget": kind, "minimize": minimize, "target": 0 if minimize else 2, "size": size,
                                "step": "mutation-then-tournament", "max_dev": md, "max_execs": me})
+    for n in (5, 9):
+        for size in (2, 4, 5):
+            us.append({"algo": "gp", "n": n, "budget": "eval", "minimize": False, "target": None, "size": size,
+                       "step": "elitism+bare-mutation", "max_dev": md, "max_execs": me})
     # the parallel evaluator (its pool replaced by an in-process one): a batch of k individuals counts as k evaluations
     for algo, size in (("hc", 2), ("hc", 4), ("gp", 3), ("rs", 1)):
         for n in (3, 5, 8):
